@@ -50,3 +50,70 @@ Example C20_src_example :
   | Err _ => False
   end.
 Proof. vm_compute. repeat split. Qed.
+
+(* ---------- EmbeddedRegistry and FilesystemRegistry AS REGENERATED from registry/base.py ------------
+   (the `with` blocks over pkg_resources/tarfile/fs, the `iter(tar.next, None)` loops, the generator
+   functions, `sum(1 for ...)`, the dictionary filled by `data[record.id] = Item(...)`); tar/gzip,
+   GenBank parsing and the file system are the environment (PyObj.v: an archive is the list of its
+   members with the records in them, a directory its listing) *)
+
+Theorem C20_src_embedded_iter : forall self, EmbeddedRegistry_iter self = Ok (emb_iter (emb_index self)).
+Proof. exact EmbeddedRegistry_iter_eq. Qed.
+Print Assumptions C20_src_embedded_iter.
+
+Theorem C20_src_embedded_len : forall self, EmbeddedRegistry_len self = Ok (Z.of_nat (emb_len (emb_index self))).
+Proof. exact EmbeddedRegistry_len_eq. Qed.
+Print Assumptions C20_src_embedded_len.
+
+(* registry[key] on an archive all of whose members load: the item of the last member whose record
+   has that id — the model's emb_lookup —, KeyError otherwise *)
+Theorem C20_src_embedded_getitem : forall self k, Forall loadable (emb_archive self) ->
+  EmbeddedRegistry_getitem self k =
+  match emb_lookup String.eqb (emb_index self) k with
+  | Some (name, id) => match find (fun e => String.eqb (gr_id (te_record e)) k) (rev (emb_archive self)) with
+                       | Some e => Ok (item_of e) | None => Err (XKeyError (KeyStr k)) end
+  | None => Err (XKeyError (KeyStr k))
+  end.
+Proof. exact EmbeddedRegistry_getitem_eq. Qed.
+Print Assumptions C20_src_embedded_getitem.
+
+Theorem C20_src_filesystem_iter : forall self,
+  FilesystemRegistry_iter self = Ok (fs_iter splitext_stem (glob_matches (fsr_exts self)) (fs_listing self)).
+Proof. exact FilesystemRegistry_iter_eq. Qed.
+Print Assumptions C20_src_filesystem_iter.
+
+Theorem C20_src_filesystem_len : forall self,
+  FilesystemRegistry_len self = Ok (Z.of_nat (fs_len (glob_matches (fsr_exts self)) (fs_listing self))).
+Proof. exact FilesystemRegistry_len_eq. Qed.
+Print Assumptions C20_src_filesystem_len.
+
+(* registry[key]: resolved through the same listing as iteration (the model's fs_lookup); the item
+   carries the key as its id; KeyError when no listed file has that stem *)
+Theorem C20_src_filesystem_getitem : forall self k,
+  FilesystemRegistry_getitem self k =
+  match fs_lookup String.eqb splitext_stem (glob_matches (fsr_exts self)) (fs_listing self) k with
+  | Some n => r <- fs_open self n ;;
+              let r' := grec_set_id r (splitext_stem n) in
+              ent <- grec_entity r' ;; res <- find_resistance r' ;;
+              Ok (mk_Item (splitext_stem n) (gr_description r) res ent)
+  | None => Err (XKeyError (KeyStr k))
+  end.
+Proof. exact FilesystemRegistry_getitem_eq. Qed.
+Print Assumptions C20_src_filesystem_getitem.
+
+(* non-vacuity: a directory with an upper-case extension, a sub-directory and a file of another
+   kind, and an archive in which two members carry the same record id *)
+Example C20_src_example2 :
+  let g i n := GR i n 7 (Some 1%nat) (Some 2%nat) in
+  let dir := FSR [("a.gb"%string, true, g "x"%string 1%nat); ("sub.gb"%string, false, g "y"%string 2%nat);
+                  ("b.GBK"%string, true, g "z"%string 3%nat); ("c.txt"%string, true, g "w"%string 4%nat)]
+                 ["gb"%string; "gbk"%string] in
+  FilesystemRegistry_iter dir = Ok ["a"%string; "b"%string] /\ FilesystemRegistry_len dir = Ok 2
+  /\ FilesystemRegistry_getitem dir "b" = Ok (mk_Item "b" 7 1 2)
+  /\ FilesystemRegistry_getitem dir "c" = Err (XKeyError (KeyStr "c"))
+  /\
+  let arc := EMB [TE "m1" (g "p1"%string 1%nat); TE "m2" (g "p2"%string 2%nat); TE "m3" (g "p1"%string 3%nat)] in
+  EmbeddedRegistry_iter arc = Ok ["m1"%string; "m2"%string; "m3"%string] /\ EmbeddedRegistry_len arc = Ok 3
+  /\ EmbeddedRegistry_getitem arc "p1" = Ok (mk_Item "p1" 3 1 2)
+  /\ EmbeddedRegistry_getitem arc "m1" = Err (XKeyError (KeyStr "m1")).
+Proof. vm_compute. repeat split. Qed.
